@@ -343,7 +343,12 @@ def run_group(label, hs, featset, jobs=8):
             r.samples.append({"harness": h.name, "features": FEATURE_SETS[featset] or "default",
                               "bound": h.bound or "none (full domain)", "what": h.doc[:300]})
             continue
-        # failed or timed out in the batch: re-run alone for an unambiguous verdict + counterexample
+        # timed out in the batch (per-thread result block says so): undecided, no second attempt
+        if times.get(h.name, (None, 0))[0] == "TIMEOUT":
+            r.obls.append(Obl(oname, label, "kani-cbmc", "undecided", bounded=h.bound,
+                              detail="no result within %ds in the batch run (timeout / out of memory)" % tmo))
+            continue
+        # failed in the batch: re-run alone for an unambiguous verdict + counterexample
         vals, d, pb = playback(h, featset, h.timeout)
         if d["status"] in (None, "TIMEOUT"):
             r.obls.append(Obl(oname, label, "kani-cbmc", "undecided", bounded=h.bound,
